@@ -278,7 +278,9 @@ func NewTree(seed int64, prof Profile, hz Hazards) *Tree {
 		t.SrcDir = "src/" + t.SrcName
 	}
 	if prof.SrcClash {
-		t.SrcDir = "pkg/" + t.SrcName + "-go"
+		// a directory that is a different identifier than the package name (store in pkg/storehouse): when a
+		// dependency shares the package name, moq's aliases are exactly the last path elements
+		t.SrcDir = "pkg/" + t.SrcName + "house"
 	}
 	t.SrcPath = t.ModPath + "/" + t.SrcDir
 	b.makeDeps()
